@@ -191,6 +191,32 @@ func runC20(c *h.Ctx) {
 		byBlocks[b] = l
 		c.Count("wire-len:bucket-sweep", 1, "")
 	}
+	// ... and the length does not depend on what was requested BEFORE (descending and shuffled orders, other client
+	// objects in between): the sweep above goes upwards, which hides a buffer that only ever grows
+	{
+		lens := []int{200, 1, 129, 0, 96, 33, 64, 32, 5, 224, 31, 97, 65, 1, 160, 2}
+		for round := 0; round < 3; round++ {
+			for _, n := range lens {
+				cl := client
+				if round == 1 {
+					cl = type3.NewRateLimitedClientFromSecret(rnd(c, 48))
+				}
+				st, err := env.request(cl, nil, rnd(c, 32), rnd(c, 48), string(nameOfLen(c, n, 0)))
+				if err != nil {
+					continue
+				}
+				l := len(st.Request().Marshal())
+				b := (n + 31) / 32
+				if b == 0 {
+					b = 1
+				}
+				c.Count("wire-len:history-independence", 1, fmt.Sprint(round, n))
+				if prev, ok := byBlocks[b]; ok && prev != l {
+					c.Violation("the request length depends on the origin name only through its number of 32-byte blocks, whatever was requested before", map[string]any{"len": n, "wire": l, "expected": prev, "round": round})
+				}
+			}
+		}
+	}
 	// the same sweep under name keys with every supported KDF / AEAD (as a peer may publish them): the bucket size is 32
 	// bytes whatever the HPKE suite; the request grows by exactly 32 bytes per block
 	pkBytes := env.nameKey.Marshal()
